@@ -47,6 +47,9 @@ pub use overrides::*;
 pub use priority::*;
 pub use retry_policy::*;
 pub(super) use scripts::*;
+/// Verification hook: the script identifier type carried by setup-script events.
+#[cfg(feature = "verif-hooks")]
+pub use scripts::ScriptId as VerifScriptId;
 pub use slow_timeout::*;
 pub use test_group::*;
 pub use test_threads::*;
